@@ -355,7 +355,8 @@ func solve(script string, timeoutS int, confirm bool) SolverResult {
 		status, out, solver string
 		secs                float64
 	}
-	ch := make(chan ans, len(solvers))
+	nrun := len(solvers)
+	ch := make(chan ans, len(solvers)+1)
 	for _, sp := range solvers {
 		sp := sp
 		go func() {
@@ -363,12 +364,30 @@ func solve(script string, timeoutS int, confirm bool) SolverResult {
 			ch <- ans{st, out, sp.name, secs}
 		}()
 	}
+	// a weaker query as an extra portfolio member: the same script without its quantified
+	// assumptions. Fewer assumptions, so `unsat` is still a proof; any other answer of this
+	// member is ignored. It decides the many goals that are plain arithmetic over a context
+	// whose quantifiers only slow the solvers down.
+	if lite, ok := stripQuantified(script); ok {
+		fl := filepath.Join(scratchDir, h+".lite.smt2")
+		if err := os.WriteFile(fl, []byte(lite), 0o644); err == nil {
+			defer os.Remove(fl)
+			nrun++
+			go func() {
+				st, out, secs := runOne(ctx, solvers[0], fl, timeoutS)
+				if st != "unsat" {
+					st, out = "unknown", "(quantifier-free variant: no answer)"
+				}
+				ch <- ans{st, out, solvers[0].name + " (quantifier-free variant)", secs}
+			}()
+		}
+	}
 	var res SolverResult
 	res.Status = "unknown"
 	var unsatBy []string
 	var notes []string
 	got := 0
-	for got < len(solvers) {
+	for got < nrun {
 		a := <-ch
 		got++
 		switch a.status {
@@ -408,6 +427,31 @@ func solve(script string, timeoutS int, confirm bool) SolverResult {
 	}
 	res.Output = strings.Join(notes, "; ")
 	return res
+}
+
+// stripQuantified drops every top-level (assert ...) that contains a quantifier, except the last
+// assertion (the negated goal). ok=false when nothing was dropped or the goal itself is quantified.
+func stripQuantified(script string) (string, bool) {
+	lines := strings.Split(script, "\n")
+	last := -1
+	for i, l := range lines {
+		if strings.HasPrefix(l, "(assert ") {
+			last = i
+		}
+	}
+	if last < 0 || strings.Contains(lines[last], "(forall ") || strings.Contains(lines[last], "(exists ") {
+		return "", false
+	}
+	dropped := false
+	out := make([]string, 0, len(lines))
+	for i, l := range lines {
+		if i != last && strings.HasPrefix(l, "(assert ") && (strings.Contains(l, "(forall ") || strings.Contains(l, "(exists ")) {
+			dropped = true
+			continue
+		}
+		out = append(out, l)
+	}
+	return strings.Join(out, "\n"), dropped
 }
 
 func firstLine(s string) string {
